@@ -49,7 +49,17 @@ def _search_state_tree(here, out, depth=4):
     if m:
         return {"cmd": ["st_replay", "wf", m.group(1), m.group(2)], "old": m.group(1), "new": m.group(2),
                 "clause": m.group(3), "tried": int(m.group(4))}, ""
-    return None, p.stdout.strip()[-300:] + p.stderr.strip()[-300:]
+    note = p.stdout.strip()[-300:] + p.stderr.strip()[-300:]
+    # completeness clause on the unambiguous family (leaf children of pairwise distinct shape, common ones in the same order)
+    try:
+        p = subprocess.run([exe, "survivors-search", "4"], capture_output=True, text=True, timeout=600)
+    except subprocess.TimeoutExpired:
+        return None, note + "; survivors search timeout"
+    m = re.search(r"FOUND old=(\S+) new=(\S+) clause=(.*?) tried=(\d+)", p.stdout)
+    if m:
+        return {"cmd": ["st_replay", "survivors", m.group(1), m.group(2)], "old": m.group(1), "new": m.group(2),
+                "clause": m.group(3), "tried": int(m.group(4))}, ""
+    return None, note + "; " + p.stdout.strip()[-200:]
 
 
 def _search_ffi(here, out):
@@ -131,6 +141,20 @@ def _search_boxed(here, out):
     return None, (p.stdout.strip()[-300:])
 
 
+def _search_layout(here, out):
+    exe, err = _build("ffi_serde", here, out)
+    if exe is None:
+        return None, "replay harness does not build against the current tree: " + err[-400:]
+    try:
+        p = subprocess.run([exe, "layout-search"], capture_output=True, text=True, timeout=900)
+    except subprocess.TimeoutExpired:
+        return None, "replay search timeout"
+    m = re.search(r"FOUND index=(\d+) value=(.*?) clause=(.*)", p.stdout)
+    if m:
+        return {"cmd": ["ffi_replay", "layout-run", m.group(1)], "value": m.group(2), "clause": m.group(3)}, ""
+    return None, (p.stdout.strip()[-300:])
+
+
 def _search_cst(here, out):
     exe, err = _build("ffi_serde", here, out)
     if exe is None:
@@ -146,7 +170,7 @@ def _search_cst(here, out):
     return None, p.stdout.strip()[-300:]
 
 
-SEARCHERS = {"state_tree": lambda here, out: _search_state_tree(here, out, 4), "ffi_serde": _search_ffi, "parser": _search_parser, "privacy": _search_privacy, "sched": _search_sched, "boxed": _search_boxed, "cst": _search_cst}
+SEARCHERS = {"state_tree": lambda here, out: _search_state_tree(here, out, 4), "ffi_serde": _search_ffi, "parser": _search_parser, "privacy": _search_privacy, "sched": _search_sched, "boxed": _search_boxed, "cst": _search_cst, "layout": _search_layout}
 TOOLS = {"st_replay": "state_tree", "ffi_replay": "ffi_serde", "parser_replay": "parser"}
 
 
